@@ -271,10 +271,10 @@ func genC19Cap(g *G) {
 		if o < 0 {
 			o = 0
 		}
-		if r.Intn(3) == 0 && c >= 0 && c <= 4 {
+		if r.Intn(2) == 0 && c >= 0 && c <= 4 {
 			// two angles that add up to 180 degrees within rounding: chord^2 values c and 4 - c (+- a few ulps) — the early
 			// "c + o >= 4" exit of ChordAngle.Add does not fire and the formula itself lands on either side of 4 (seeded change C19_7)
-			o = math.Min(4, math.Max(0, c19ulps(4-c, r.Intn(9)-4)))
+			o = math.Min(4, math.Max(0, c19ulps(4-c, -r.Intn(7)))) // at or a few ulps below 4 - c
 		}
 		e := []float64{0, 1e-17, -1e-17, 2.220446049250313e-16, r.Float(), -r.Float(), 5, -5}[r.Intn(8)]
 		g.emit("chord", fx(c), fx(o), fx(e))
